@@ -38,11 +38,12 @@ for d in sorted(glob.glob('/verif/seeded/C*-*')):
     out.append('| %s | %s | %s | %s |' % (os.path.basename(d), clip(m.get('summary', ''), 260), clip(m.get('needs', ''), 200), clip(r, 220)))
 missed_first = [os.path.basename(d) for d in sorted(glob.glob('/verif/seeded/C*-*')) if json.load(open(d + '/meta.json')).get('history')]
 not_caught = [os.path.basename(d) for d in sorted(glob.glob('/verif/seeded/C*-*')) if str(json.load(open(d + '/meta.json')).get('history', '')).startswith('NOT CAUGHT')]
-missed_first = [x for x in missed_first if x not in not_caught]
-out += ['', '%d of the %d seeded changes are caught by the quick tier of the property they were written against; %d of those (%s)' % (len(glob.glob('/verif/seeded/C*-*')) - len(not_caught), len(glob.glob('/verif/seeded/C*-*')), len(missed_first), ', '.join(missed_first)),
+thorough_only = [os.path.basename(d) for d in sorted(glob.glob('/verif/seeded/C*-*')) if 'thorough' in str(json.load(open(d + '/meta.json')).get('detected_by', '')) and 'quick: MISSED' in str(json.load(open(d + '/meta.json')).get('detected_by', ''))]
+missed_first = [x for x in missed_first if x not in not_caught and x not in thorough_only]
+out += ['', '%d of the %d seeded changes are caught by the quick tier of the property they were written against; %d of those (%s)' % (len(glob.glob('/verif/seeded/C*-*')) - len(not_caught) - len(thorough_only), len(glob.glob('/verif/seeded/C*-*')), len(missed_first), ', '.join(missed_first)),
  'were missed at first and led to stronger generators or new arrangements (see the result column); the in-memory HTTP',
  'bridge also learnt to bound client-side read sizes, to buffer responses like net/http does and to pass on bodies of',
- 'undeclared length. Not caught by their own property\'s check: %s (reasons in the result column).' % (', '.join(not_caught) or 'none'), '']
+ 'undeclared length. Not caught by their own property\'s check: %s (reasons in the result column).' % (', '.join(not_caught) or 'none'), 'Caught by the thorough tier only (scheduler-dependent): %s.' % (', '.join(thorough_only) or 'none'), '']
 s = open('/verif/DESIGN.md').read()
 i = s.find('## 7. Sensitivity')
 if i >= 0: s = s[:i]
